@@ -42,7 +42,7 @@ def whole_input_copied(F, S):
         good = t[0] == "un" and t[1] == "*" and t[2][0] == "idx" and t[2][1][0] == "mem" and t[2][1][2] == "fileStreamReaders"
         idx_w = t[2][2] if good else None
         hdr = [nd for nd in wf.nodes if nd["k"] in CTORS and (nd.get("ctor_rec") or "").endswith("VolFile::SectionHeader")]
-        same_i = good and hdr and idx_w == wf.term(hdr[0]["args"][1])[1][2]
+        same_i = good and hdr and idx_w == wf.xterm(hdr[0]["args"][1])[1][2]
         good = good and same_i
     if good:
         out.append(ok("R-COPYEXT", inst, wf.loc(copies[0]["id"]), wf.qn, "block i is header(fileSize of entry i) followed by a copy of reader i", "Write(*fileStreamReaders[i]) after SectionHeader(VBLK, indexEntries[i].fileSize)"))
@@ -99,13 +99,28 @@ def parallel_tables(F, S):
     ca = F.fn(VOL + "::CreateArchive", nparams=2)
     files = ("var", ca.params[1]["n"], ca.params[1]["d"])
     st = {}
+    at = {}
     for nd in ca.nodes:
         if nd["k"] == "CXXOperatorCallExpr" and nd.get("op") == "=" and nd.get("args"):
             l = ca.term(nd["args"][0])
             if l[0] == "mem":
                 st[l[2]] = ca.term(nd["args"][1])
+                at[l[2]] = (nd["id"], l)
     inst = VOL + "::CreateArchive#tables-from-sorted-list"
-    good = st.get("filesToPack") == files and st.get("names", ("?",))[0] == "call" and st["names"][1].endswith("GetNamesFromPaths") and st["names"][3] == (files,)
+    # the sorted list is copied or moved into the scratch structure; the names are derived from the sorted list, which after a
+    # move is the stored member (the moved-from parameter is empty) and before it the parameter
+    moved = st.get("filesToPack") == ("call", "std::move", None, (files,))
+    good = (st.get("filesToPack") == files or moved) and st.get("names", ("?",))[0] == "call" and st["names"][1].endswith("GetNamesFromPaths") \
+        and len(st["names"][3]) == 1
+    if good:
+        arg = st["names"][3][0]
+        after = at["names"][0] > at["filesToPack"][0]
+        if arg == files:
+            good = not (moved and after)
+        elif arg == at["filesToPack"][1]:
+            good = after
+        else:
+            good = False
     if good:
         out.append(ok("R-MUSTCALL", inst, ca.loc(ca.body), ca.qn, "the stored path list and the name list are both taken from the sorted input list", "filesToPack = sorted; names = GetNamesFromPaths(sorted)"))
     else:
